@@ -152,8 +152,12 @@ def build(run):
             except Exception as ex:  # noqa: BLE001
                 return undecided(f"{tag}: template could not be built: {ex}")
             rules = ComplexNodeRemoval()
+            # the operands have already been transformed (to stand-ins t_<name>): the rule must build its result from the TRANSFORMED operands,
+            # a rule that reaches back to the node's own operands returns sub-expressions nothing has cleaned
+            ops_t = [Opq("t_" + name, shape, fi, fid, dom=tri, real=True) for (name, shape, fi, fid) in t.specs]
+            o_t = t.build(ops_t)
             try:
-                r = map_expr_dag(rules, o, vcache={op: op for op in ops})
+                r = map_expr_dag(rules, o, vcache=dict(zip(ops, ops_t)))
             except ValueError as ex:
                 if not deliberate(ex):
                     return violated(f"crash instead of a result or a refusal: {crash_text(ex)}", reproduced=True, backend="exec")
@@ -166,7 +170,7 @@ def build(run):
                 if isinstance(node, (C.Conj, C.Real, C.Imag, C.ComplexValue)):
                     return violated(f"{tag}: {type(node).__name__} node left in a real-mode expression", reproduced=True,
                                     replay={"result": repr(r)[:1000]})
-            return check_same(complex_world(), r, lambda w, c, env: den(w, o, c, env), o.ufl_shape, o.ufl_free_indices,
+            return check_same(complex_world(), r, lambda w, c, env: den(w, o_t, c, env), o.ufl_shape, o.ufl_free_indices,
                               o.ufl_index_dimensions, timeout_ms=tmo, what=tag)
         run.add(tag, thunk, kind="values")
     for t in templates():
@@ -200,6 +204,13 @@ def build(run):
             ("imag node", imag(f) * v, True), ("imag of product", imag(f * u) * v, True),
             ("conj only", u * conj(v), False), ("real only", real(f) * u * v, False), ("inner (conj inside)", inner(f * u, v), False),
             ("plain real form", f * u * v, False),
+            # complex nodes NESTED below a conj / real node (and two conj levels: the pipeline removes complex nodes in more than one pass)
+            ("conj over real", conj(real(f) * v) * u, False), ("conj over conj", conj(conj(f) * v) * u, False), ("real over conj", real(conj(f) * u) * v, False),
+            ("conj over imag", conj(imag(f) * v) * u, True), ("conj over a complex literal", conj(z * v) * u, True), ("real over imag", real(imag(f) * u) * v, True),
+            ("real over a complex literal", real(z * f) * u * v, True),
+            ("two conj levels over real", inner(u, inner(f, real(f) * f) * v), False), ("two conj levels over imag", inner(u, inner(f, imag(f) * f) * v), True),
+            ("two conj levels over a complex literal", inner(u, inner(f, (1 + 2j) * f) * v), True), ("two conj levels, plain", inner(u, inner(f, f * f) * v), False),
+            ("three conj levels over imag", inner(inner(f, inner(f, imag(f))) * u, v), True),
         ]
         n = 0
         for name, itg, reject in cases:
